@@ -7,7 +7,10 @@ names in order, index names, surviving geometry column, the right bounds rows, t
 class).  Independently of the model: (a) the pandas contracts — every value / index label of
 an output row is the value of the source rows it names; (b) the pair set by brute force with
 the scalar Point.intersects(shape) and the row multiset each `how` must produce from it;
-(c) result type and geometry dtype; (d) argument validation.
+(c) result type and geometry dtype; (d) argument validation.  Coordinates that are not small
+integers - near-ties at magnitude up to 2^25, the same frames under exact maps v -> v*2^k + t,
+arbitrary float64 frames against the binary64 pair-table model Model/SjoinFloat.v - are in
+harness/c05_float.py (called at the end of run()).
 """
 import itertools
 
